@@ -3,6 +3,8 @@ package main
 import (
 	"net/http/httptest"
 	"strings"
+	"sync"
+	"sync/atomic"
 
 	restful "github.com/emicklei/go-restful/v3"
 )
@@ -339,7 +341,60 @@ func runCors(raw Sx) (Sx, Sx) {
 		}
 		tabulateRouting(o, kept, q.Path)
 	}
+	if (forceConc || len(reqsSx)%3 == 0) && len(obs) > 0 {
+		// two services with CORS filters of their own behind the same container filters, asked by several clients at
+		// once: every answer must come from the filter of the service it was sent to (sixth field of the first
+		// observation: 1 = so it was)
+		first := append(Ls{}, sxList(obs[0])...)
+		obs[0] = append(first, B(corsPerServiceConcurrently(sxInt(sxNth(tSx, 0)))))
+	}
 	return L(o.Sx(), cfgSx, kept.Sx(), Ls(reqsSx), mut, flip), obs
+}
+
+func corsPerServiceConcurrently(router int) bool {
+	c := restful.NewContainer()
+	if router == 1 {
+		c.Router(restful.RouterJSR311{})
+	}
+	for i := 0; i < 3; i++ {
+		c.Filter(func(rq *restful.Request, rp *restful.Response, ch *restful.FilterChain) { ch.ProcessFilter(rq, rp) })
+	}
+	permissive := restful.CrossOriginResourceSharing{CookiesAllowed: true, ExposeHeaders: []string{"X-P"}, Container: c}
+	restrictive := restful.CrossOriginResourceSharing{AllowedDomains: []string{"http://only.example"}, Container: c}
+	for _, x := range []struct {
+		root string
+		f    restful.FilterFunction
+	}{{"/p", permissive.Filter}, {"/r", restrictive.Filter}} {
+		ws := new(restful.WebService)
+		ws.Path(x.root)
+		ws.Filter(x.f)
+		ws.Route(ws.GET("/x").To(func(rq *restful.Request, rp *restful.Response) { rp.WriteHeader(200) }))
+		c.Add(ws)
+	}
+	var bad int32
+	var wg sync.WaitGroup
+	for w := 0; w < 6; w++ {
+		wg.Add(1)
+		go func(w int) {
+			defer wg.Done()
+			for k := 0; k < 40; k++ {
+				path := []string{"/p/x", "/r/x"}[(w+k)%2]
+				q := &Req{Method: "GET", Path: path}
+				q.Set("Origin", "http://evil.example")
+				rec := httptest.NewRecorder()
+				c.Dispatch(rec, q.HTTP())
+				ao, ac := rec.Header().Get("Access-Control-Allow-Origin"), rec.Header().Get("Access-Control-Allow-Credentials")
+				if path == "/r/x" && (ao != "" || ac != "") {
+					atomic.StoreInt32(&bad, 1)
+				}
+				if path == "/p/x" && (ao != "http://evil.example" || ac != "true") {
+					atomic.StoreInt32(&bad, 1)
+				}
+			}
+		}(w)
+	}
+	wg.Wait()
+	return bad == 0
 }
 
 func init() { domains["cors"] = domain{gen: genCors, run: runCors} }
